@@ -409,6 +409,12 @@ class Gen:
         for i in range(96):
             if r.random() < 0.2:
                 labels[i] = self.text(8, allow_empty=True) if r.random() < 0.85 else r.choice(["%", "->", "***", "\u266a", "-", "_", "e\u0301", "\u2126", "A\u030a\u0327", "Arpeggiator", "volume"])
+        # labels spelled exactly like the display name of the controller the slot is mapped onto ("Volume" on Amplifier.volume)
+        for i, (mi, ci) in enumerate(mappings):
+            if 0 < mi < len(mods) and mods[mi] is not None and r.random() < 0.15:
+                t_ = spec.by_mtype().get(mods[mi]["type"])
+                if t_ is not None and ci < len(t_.controllers):
+                    labels[i] = t_.controllers[ci].name.replace("_", " ").title()
         d["payload"] = {"project": emb, "mappings": mappings, "labels_all": labels, "count": n,
                         "unmapped_values": {i: self.pick(0, 44100, 0) for i in range(96) if r.random() < 0.5}}
         return d
